@@ -54,6 +54,9 @@ LEVEL_TEXT = ("Lean 4 proofs over ℚ for all inputs: window sufficiency with C 
 LEVEL_NOTE = "ℚ model of float32 code; exact only where float32 arithmetic is exact; int overflow of the buffer length is a known finding"
 TECHNIQUE = "Lean 4 proof (floor/ceil/trunc arithmetic over ℚ, list membership invariants) + exact dyadic correspondence + float64 brute-force oracle"
 
+import warnings
+warnings.filterwarnings("ignore", message="invalid value encountered in cast")   # numpy, radii beyond int32 (known finding)
+
 K_OVERFLOW = "C14/result-buffer-length-int-overflow"
 K_F32GRID = "C14/float32-cell-count-rounding/atom-outside-grid"
 K_TRICLINIC = "C14/periodic/skewed-triclinic-box/minimum-image-outside-27-replicas"
@@ -494,8 +497,11 @@ def _query(np, cl, q, n, periodic, exact, S=0, wide=False, issues=None, rnd=None
             if a.tobytes() != b:
                 out.append(("caller-array-modified", f"{q['op']} overwrote the caller's {name} ({a.dtype}): now {a.tolist()}"[:300]))
         return out
+    import warnings
     try:
-        res = call()
+        with warnings.catch_warnings():
+            warnings.simplefilter("ignore", RuntimeWarning)     # numpy: "invalid value encountered in cast" for radii beyond int32
+            res = call()
     except Exception:
         if issues is not None:
             issues += modified()
@@ -608,6 +614,8 @@ def _exact_sets(spec, q):
     box = spec["box"]
     full = box is not None and len(box) == 9
     inv = _mat_inv(box) if full else None
+    if box is not None and not full:
+        box = [abs(x) for x in box]          # a mirrored box vector spans the same lattice
 
     def d2(a, p):
         if full:
@@ -843,7 +851,8 @@ def _oracle_body(case):
         if isinstance(rows, str):
             v.append((f"C14/{tag}/malformed-output", f"{q}: {rows}"))
             continue
-        if q["op"] != "adj" and (exact or (q["rad_kind"] == "m")):
+        light = bool(case.get("light"))
+        if q["op"] != "adj" and (exact or (q["rad_kind"] == "m")) and not light:
             # float64 coordinates / float64 (int64) radii: arrays untouched, same answer as with float32 input
             issues_w = []
             try:
@@ -901,6 +910,8 @@ def _oracle_body(case):
                               f"beyond the radius (outside the 1e-4 band)"))
                     break
         # derived views: mask ⇔ indices, scalar ⇔ per-query radii, adjacency symmetric
+        if light:
+            continue
         if q["op"] in ("atoms", "cells"):
             other = dict(q, mode="mask" if q["mode"] == "idx" else "idx")
             try:
@@ -926,7 +937,7 @@ def _oracle_body(case):
                         v.append(("C14/adj/not-symmetric", f"adjacency[{i}][{j}] is True but [{j}][{i}] is False (thr {q['thr']})"))
                         break
     # ---- state across calls on one object / a second object alive at the same time / permuted input order
-    if first_ok is not None and not isinstance(first_ok[1], str) and n >= 1:
+    if first_ok is not None and not isinstance(first_ok[1], str) and n >= 1 and not case.get("light"):
         q0, rows0 = first_ok
         try:
             spec2 = dict(spec, coords=list(reversed(spec["coords"])), cs=spec["cs"] * 2,
@@ -1519,7 +1530,7 @@ def _wrapped_ok_radii():
         for cr in range(813, 2048):
             T = (2 * cr + 1) ** 3
             L = ((T + 2 ** 31) % 2 ** 32) - 2 ** 31
-            if T >= 2 ** 31 and 64 <= L <= 12_000_000:
+            if T >= 2 ** 31 and 64 <= L <= 3_000_000:
                 out.append(cr)
         _LAST["wrapped"] = out
     return _LAST["wrapped"]
@@ -1537,7 +1548,7 @@ def _region_case(rng):
         ops = [new, f"atoms idx m {q},{q} m:{big},{rng.randint(0, 3)}", f"atoms {rng.choice(['idx', 'mask'])} s {q} s:{big}",
                f"atoms idx m {q},{q} s:{big}", f"cells idx m {q},{q} m:{rng.choice([2 ** 31, 2 ** 32 + 1, 2 ** 33])},1",
                f"cells mask s {q} s:{2 ** 31}", f"atoms idx s {q} s:{rng.randint(0, 4)}"]
-        return {"kind": "region-huge", "ops": ops}
+        return {"kind": "region-huge", "light": True, "ops": ops}
     if t == "wrapped-ok":
         coords = [[i * rng.randint(1, 3), rng.randint(0, 2) * 2, 0] for i in range(rng.randint(1, 5))]
         cr = rng.choice(_wrapped_ok_radii())
@@ -1545,19 +1556,19 @@ def _region_case(rng):
         if mcl != 1:
             coords = [[2 * i, 0, 0] for i in range(len(coords))]
         q = _ints(coords[-1])
-        return {"kind": "region-wrapped-ok", "ops": [f"new 0 1 - - {_ints(x for c in coords for x in c)}",
+        return {"kind": "region-wrapped-ok", "light": True, "ops": [f"new 0 1 - - {_ints(x for c in coords for x in c)}",
                                                      f"atoms {rng.choice(['idx', 'mask'])} s {q} s:{cr}", f"cells idx s {q} s:{cr}"]}
     if t == "large-window":
         coords = [[2 * i, 3 * (i % 2), 0] for i in range(rng.randint(1, 6))]
-        cr = rng.randint(80, 140)
+        cr = rng.randint(55, 85)
         q = _ints([rng.randint(-50, 50), 0, 0])
-        return {"kind": "region-large-window", "ops": [f"new 0 1 - - {_ints(x for c in coords for x in c)}",
+        return {"kind": "region-large-window", "light": True, "ops": [f"new 0 1 - - {_ints(x for c in coords for x in c)}",
                                                        f"atoms idx s {q} s:{cr}", f"cells mask s {q} s:{cr}"]}
     if t == "many-cells":
-        w = rng.randint(90, 130)
+        w = rng.randint(45, 65)
         coords = [[rng.randint(-w, w) for _ in range(3)] for _ in range(rng.randint(2, 6))] + [[-w, -w, -w], [w, w, w]]
         q = coords[rng.randrange(len(coords))]
-        return {"kind": "region-many-cells", "ops": [f"new 0 1 - - {_ints(x for c in coords for x in c)}",
+        return {"kind": "region-many-cells", "light": True, "ops": [f"new 0 1 - - {_ints(x for c in coords for x in c)}",
                                                      f"atoms idx m {_ints(q)},{_ints([w, w, w])} m:{rng.randint(0, 40)},2", f"adj {rng.randint(0, 30)}"]}
     coords = [[rng.randint(-20, 20) for _ in range(3)] for _ in range(rng.randint(1, 5))]
     flat = _ints(x for c in coords for x in c)
